@@ -223,9 +223,21 @@ def case_library(ctx, size, rseed, count):
             if vp == "fixed" and r.random() < 0.3:
                 vp = range(1, N + 1)               # a range is a valid explicit permutation
                 combo = (combo[0], "explicit", combo[2])
+            elif combo[1] == "explicit" and r.random() < 0.25:
+                vp = range(N, 0, -1)               # ... and so is a descending one
+                ctx.count("explicit_descending_range")
             if cp == "fixed" and r.random() < 0.3:
                 cp = range(M)
                 combo = (combo[0], combo[1], "explicit")
+            elif combo[2] == "explicit" and r.random() < 0.25:
+                cp = range(M - 1, -1, -1)
+                ctx.count("explicit_descending_range")
+            if r.random() < 0.5:
+                # keywords computed at run time: equal to 'fixed' / 'shuffle' without being the same object
+                fresh = lambda a: ("-" + a)[1:] if isinstance(a, str) else a
+                pf, vp, cp = fresh(pf), fresh(vp), fresh(cp)
+                if any(isinstance(a, str) for a in (pf, vp, cp)):
+                    ctx.count("keywords_built_at_run_time")
             seed = r.randint(0, 10 ** 6)
             mode = r.choice(["fair", "fair", "low", "high", "repeat"])
             label = "Shuffle(CNF(%d vars, %r%s), %r, %r, %r) seed %d %s" % (
